@@ -496,6 +496,23 @@ def run(chk):
                     if t is not None and any((callee(x) or "") == "std::ios_base::precision" and const_val(call_args(x)[0]) == 17 for x in t.calls()):
                         prec.append(c)
             chk.ob("C06-D6.precision", f.key, "precision(17) before doubles are written", bool(prec), f.where)
+            # ... and before the FIRST floating point number: every call of the writer that takes a double (or a container of doubles, or writes a member that holds them)
+            # is preceded by the precision call on every path
+            if prec:
+                from tsg.typestate import must_pass_before as _mpb
+                dbl = []
+                for c in f.calls(into_lambda=False):
+                    cal = callee(c) or ""
+                    if not (short(cal).startswith(("writeNumbers", "writeVector", "write")) or (c.get("k") == "CXXOperatorCallExpr" and c.get("op") == "<<")):
+                        continue
+                    if any(x is c for pc in prec for x in walk(pc)) or c in prec:
+                        continue
+                    ts = [(a.get("t") or "") for a in call_args(c)] + ([(call_object(c) or {}).get("t") or ""] if c.get("k") == "CXXMemberCallExpr" and call_object(c) is not None else [])
+                    if any(("double" in t_ and "ostream" not in t_) or "StorageSet" in t_ for t_ in ts):
+                        dbl.append(c)
+                late = [c for c in dbl if is_reachable(f, c) and not _mpb(f, c, lambda n_: any(x is n_ for x in prec))]
+                chk.ob("C06-D6.precision", f.key, "no floating point field is written before precision(17) is set", not late, f.loc(late[0]) if late else f.where,
+                       "" if not late else "`%s` is written with the default 6 digits of the stream" % txt(late[0])[:60])
     chk.floor("C06-D6.precision", nprec, 6, "ascii writers with floating point fields")
 
     # ------------------------------------------------------------------ D10 members stored under one emptiness test are set together
@@ -512,6 +529,10 @@ def run(chk):
             ng += 1
             chk.ob("C06-D10.group", o["function"], o["construct"], o["ok"], o["where"], o["detail"], o["expected"])
     chk.floor("C06-D10.group", ng, 4, "methods that set the member tested by the writer")
+
+    from rules import seqnodes
+    nsq = seqnodes.seqnodes_rule(chk, db, "C06-D12.nodes")
+    chk.floor("C06-D12.nodes", nsq, 2, "index sets converted to coordinates in GridSequence")
 
     from rules import header
     nh = header.header_rule(chk, db, "C06-D11.header")
